@@ -285,7 +285,21 @@ pub fn m_msg(max_depth: u32) -> BoxedStrategy<MMsg> {
         g.extend(rest);
         g
     });
-    (header, groups, payload()).prop_map(|((version, code, request_id), groups, payload)| MMsg { canon: Canon { version, code, request_id, groups }, payload }).boxed()
+    let plain = (header, groups, payload()).prop_map(|((version, code, request_id), groups, payload)| MMsg { canon: Canon { version, code, request_id, groups }, payload });
+    // 2 %: a message holding one wide attribute (a media-col-database: 130-260 small collections, or a
+    // long list of scalars), as real printers send
+    let small_coll = vec((member_name(), m_leaf(false)), 0..=2).prop_map(|ms| CValue::Coll(ms.into_iter().collect::<BTreeMap<_, _>>()));
+    let wide_value = prop_oneof![
+        2 => (130usize..260).prop_flat_map(move |n| vec(small_coll.clone(), n)).prop_map(CValue::Set),
+        1 => (130usize..260).prop_flat_map(|n| vec(m_leaf(true), n)).prop_map(CValue::Set),
+    ];
+    let wide = (any::<u16>(), any::<u32>(), attr_name(), wide_value, m_group(1), group_tag()).prop_map(|(code, request_id, name, value, mut first, tag)| {
+        let mut g2 = BTreeMap::new();
+        g2.insert(name, value);
+        first.insert(b"attributes-charset".to_vec(), CValue::Str(0x47, b"utf-8".to_vec()));
+        MMsg { canon: Canon { version: 0x0200, code, request_id, groups: vec![(1, first), (tag, g2)] }, payload: vec![] }
+    });
+    prop_oneof![49 => plain, 1 => wide].boxed()
 }
 
 // ---------------------------------------------------------------------------------------------
